@@ -35,6 +35,7 @@ open TV.Viterbi
 inductive Cell (α : Type) where
   | num (v : α)     -- a number: an observation value, a recorded cost, the initial `0.0`
   | st (s : Nat)    -- a state object (what `S` returned), by label
+  deriving DecidableEq
 
 /-- one field of the observation handed to `P` -/
 inductive ObsItem (α : Type) where
@@ -112,6 +113,8 @@ def setObs (tr : Trk α) (name : String) (i : Nat) (v : Cell α) : Except Err (T
 
 /-- `track[k].position = state` -/
 def setPos (tr : Trk α) (k : Nat) (s : Nat) : Trk α := { tr with pos := tr.pos.set k (some s) }
+/-- `if mode in [3, 4, 5]: track[k].position = STATES[k][idk]` -/
+def posStep (tr : Trk α) (mode k s : Nat) : Trk α := if mode = 3 ∨ mode = 4 ∨ mode = 5 then tr.setPos k s else tr
 end Trk
 
 /-- `HMM.__getObs(track, obs, k, mode)` before `unlistify` (a one-element list is handed to `P` as its element;
@@ -168,8 +171,7 @@ def writeBack (mode : Nat) (STATES : List (List Nat)) :
         match tr1.setObs "hmm_cost" k (.num v) with
         | .error e => (tr1, some e)
         | .ok tr2 =>
-          let tr3 := if mode = 3 ∨ mode = 4 ∨ mode = 5 then tr2.setPos k s else tr2
-          writeBack mode STATES rest m tr3
+          writeBack mode STATES rest m (tr2.posStep mode k s)
     | _, _, _ => (tr, some .index)
 
 /-- `HMM.estimate(track, obs, log, mode)`: the object and the track after the call, and the exception if one
